@@ -124,7 +124,7 @@ def tracker_runs(r, quick):
 
 
 def run():
-    chk = Check("C15")
+    chk = Check("C15", props_modules=["GFO.Props.C15", "GFO.Props.LocalRuns"])
     chk.build_and_audit()
     r = C.rng("C15")
     quick = C.tier() != "thorough"
@@ -139,5 +139,7 @@ def run():
                     n, fails, keys, [dict(space="12 x 5", initialize={"random": 2, "vertices": 2}, kinds=list(KINDS) + ["mix"])])
     chk.exhaustive = True
     chk.assumptions.append("sklearn's reaction to degenerate training data is an oracle; construction sites that read the valid lists (simplex, Powell, pattern, Lipschitz, forest) are examined by the monitor only")
+    from . import localgen
+    localgen.add_to(chk, C.rng("C15-local"), 8 if C.tier() != "thorough" else 80, constraint_p=0.3, nonfinite_p=1.0)
     scen.shutdown_manager()
     return chk.finish()
